@@ -93,6 +93,8 @@ def HandleOk (L : List Ent) (dir : Nat → Option Nat) (nIno : Nat) (id : Nat) (
       ∃ n k, h.stg = some (n, k) ∧ ⟨id, n, k, .ex⟩ ∈ L ∧ n ≠ h.lockSer ∧ n < h.nd
   | .renamed =>
       ∃ n k, h.stg = some (n, k) ∧ ⟨id, n, k, .ex⟩ ∈ L ∧ dir h.path = some k ∧ n ≠ h.lockSer ∧ n < h.nd
+  | .downgrading => True
+  | .upgrading => True
 
 /-- The inductive invariant. -/
 structure Inv (s : State) : Prop where
